@@ -422,3 +422,54 @@ def run_lru_big(args):
             cache.clear()
         stats['big_cases'] += 1
     return stats, problems
+
+
+def run_columns_and_entries(args):
+    """a column cache and a per-entry disk cache for the SAME field over the SAME index and storage (a legal setup), with shards of one,
+    two or all entries (relative shard sizes, a dataset reduced to one id): the key of a shard (a tuple of values) is never the key of an
+    entry, in whichever order the two caches are filled (C05 / C04)"""
+    seed, n = args
+    import shutil, tempfile
+    paths.use_repo()
+    from tarn import HashKeyStorage
+    from tarn.config import StorageConfig, init_storage
+    import connectome as c
+    from connectome.serializers import JsonSerializer
+    os.makedirs(paths.SCRATCH, exist_ok=True)
+    problems, cases = [], 0
+    for i in range(n):
+        rng = random.Random(seed * 9241 + i)
+        root = tempfile.mkdtemp(prefix='cv-colent-', dir=paths.SCRATCH)
+        try:
+            index, storage = os.path.join(root, 'index'), os.path.join(root, 'storage')
+            for p in (index, storage):
+                init_storage(StorageConfig(hash='sha256', levels=[1, 31]), p)
+            k = rng.randint(1, 4)
+            ids = [f'i{j}' for j in range(k)]
+            def _ids(ids=tuple(ids)):
+                return ids
+            ds = c.Transform(ids=c.meta((lambda t: lambda: t)(tuple(ids))), id=lambda id: id, image=lambda id: 'image-' + id)
+            shard = rng.choice([None, 0.5, 0.34, 1 / max(k, 1), 2, 3])
+            if shard == 1:
+                shard = None            # 1 is rejected as ambiguous
+            columns = ds >> c.CacheColumns(index, HashKeyStorage(storage), JsonSerializer(), 'image', shard_size=shard)
+            entries = ds >> c.CacheToDisk(index, HashKeyStorage(storage), JsonSerializer(), 'image')
+            order = [('columns', columns), ('entries', entries)]
+            rng.shuffle(order)
+            cases += 1
+            for key in ids:
+                for name, p in order:
+                    got = p.image(key)
+                    if got != 'image-' + key:
+                        problems.append({'ids': ids, 'shard': shard,
+                                         'msg': f'CacheColumns(shard_size={shard}) and CacheToDisk for one field over one storage, {len(ids)} ids, filled in the order '
+                                                f'{[o[0] for o in order]}: {name}.image({key!r}) returned {got!r}'})
+                        break
+                else:
+                    continue
+                break
+        except Exception as e:
+            problems.append({'msg': 'columns + entries scenario raised ' + type(e).__name__ + ': ' + str(e)[:160]})
+        finally:
+            shutil.rmtree(root, ignore_errors=True)
+    return {'cases': cases}, problems
